@@ -1,10 +1,19 @@
 (* C09 -- property theorems (SubsectionIO part). *)
-From Pyctr Require Import Base.Prelude Base.ListExt Base.PySlice Env.PyFile Model.Window Proofs.WindowProofs.
+From Pyctr Require Import Base.Prelude Base.ListExt Base.PySlice Env.PyFile Model.Window Model.Merger Proofs.WindowProofs Proofs.MergerProofs.
 From Dyn Require Import Gen_fileio C09_bridge.
 
 (* every step of every history of seek/read/write/tell calls, with any integer arguments,
    on a window [off, off+sz) over a base file that reaches the window's start, obeys the
    sub-file contract [step_contract] (WindowProofs.v) *)
+(* merged split files: every step of every seek / read / tell history with arbitrary integer arguments obeys the contract of a
+   read-only view exposing the concatenation of the pieces (reads are the slice at the reported position, clamped; never an error) *)
+Theorem C09_merger : forall segs ops m, MergerProofs.inv segs m -> msteps_ok segs m ops.
+Proof. intros. apply merger_history_ok. assumption. Qed.
+Print Assumptions C09_merger.
+
+Theorem C09_merger_initial : forall segs, MergerProofs.inv segs (mkM 0 0).
+Proof. exact MergerProofs.init_inv. Qed.
+
 Theorem C09_window : forall off sz, 0 <= off -> 0 <= sz ->
   forall w ops, win_inv off w -> all_steps_ok off sz w ops.
 Proof. exact window_history_ok. Qed.
